@@ -382,6 +382,33 @@ CHECKS["C15"] = {
     "explanation": "history + executable Vec<char> model with identity, compared after every operation",
 }
 
+CHECKS["C06"] = {
+    "engine": "c06",
+    "level": "exploration",
+    "lanes_quick": [("release", None), ("chk", None)],
+    "lanes_thorough": [("release", None), ("chk", None)],
+    "timeout_quick": 1800,
+    "timeout_thorough": 4 * 3600,
+    "floors": {"builtin_calls": 100000, "errors_returned_and_rendered": 50000, "canaries_ok": 100000, "texts_evaluated": 50000, "programs": 100, "cells_evaluated": 50,
+               "sliced_erroring_programs": 100},
+    "rule": "case space (split over shards, run in sandboxed children): (1) every global name x arity 0 and 1 x a 62-entry palette of value-producing "
+            "expressions (every kind and boundary the property names); (2) arity 2: 400 seeded pairs per name (quick) / all 62^2 pairs (thorough), "
+            "sometimes passing the same object twice; (3) arities 3-5 sampled; (4) fuzz texts (random Unicode, token soup, mutated prelude slices, "
+            "mutated generated programs) through eval_text datum by datum; (5) 22 circular-structure programs (list?, length, equal?, display, write, "
+            "as the value of an evaluation) and ~130 programs about nesting <= 64, sizes <= 10^6, radix / exponent / syntax edge cases; (6) "
+            "Vm::eval on Cells the API itself returns (procedure, macro, continuation, void, undefined) in 11 syntactic positions; (7) erroring "
+            "programs through prepare_eval/run_count with budgets 1..3. Requested sizes above 10^6 (make-vector, make-string, expt exponent) are "
+            "skipped. After every call the error (if any) is rendered and (+ 1 2) is evaluated as a canary. distinct = distinct (procedure, argument "
+            "kind tuple) / program texts that ran cleanly.",
+    "assumptions": TRUSTED_COMMON + [
+        "a Scheme-level evaluation that exceeds 3*10^6 instructions on a matrix call or listed program is reported as a hang; on fuzz text it is only counted (arbitrary text may be a non-terminating program)",
+        "a child process death or 10 s of silence is a violation only if the culprit case reproduces twice in isolation with a 30 s budget",
+        "allocation-failure aborts are attributed to the case that requested the memory; requests above 10^6 elements are outside the property's quantifier",
+    ],
+    "explanation": "panic hook + catch_unwind at the API boundary, Display of returned errors, canary evaluation, instruction-budget watchdog, process "
+                   "sandbox with journal for aborts and native hangs",
+}
+
 # ---- texts for MANIFEST.json (tools/gen_manifest.py) ----
 MANIFEST_TEXT = {}
 NOT_APPLICABLE = {}
@@ -530,4 +557,14 @@ MANIFEST_TEXT["C15"] = {
     "level_text": "Sequences of string/character operations with characters of every byte width and indices around both ends of the valid range; results, "
                   "required errors and the contents of every string are compared after each step.",
     "level_note": "Trusts std's Unicode tables and the 300-line model.",
+}
+
+MANIFEST_TEXT["C06"] = {
+    "technique": "runtime monitoring: panic recorder and process-exit/hang observer over the builtin matrix (every global procedure x arity x value-kind palette), fuzzed text, circular/deep/large scenarios and API-returned cells, in release and overflow-checked builds",
+    "design_ref": "DESIGN.md 6 C06",
+    "level_text": "Every public entry point is driven with hostile input in sandboxed child processes; a panic, abort, native hang, unrenderable error or a VM "
+                  "that no longer evaluates a canary is a violation with the offending call as witness. The builtin matrix is discovered at run time "
+                  "from global_symbols(), so new builtins are covered automatically.",
+    "level_note": "Covers the argument kinds of the palette; values between the boundaries are not explored. Hangs are decided by instruction and wall-clock "
+                  "budgets with confirmation re-runs.",
 }
